@@ -48,6 +48,13 @@ MODELS = {
         "constants": {"quick": {"MaxRecs": 2, "NNames": 4}, "thorough": {"MaxRecs": 2, "NNames": 5}},
         "always": ["Inv_Struct"], "properties": ["P_C10"],
     },
+    # the converter world with its files (spec/System.tla)
+    "System": {
+        "module": "mc/MC_System.tla", "spec": "MCSpec", "view": "View",
+        "constants": {"quick": {"MaxConvs": 3, "MaxSteps": 3, "MaxFiles": 1, "MaxAdds": 1, "Size": '"tiny"'},
+                      "thorough": {"MaxConvs": 3, "MaxSteps": 3, "MaxFiles": 1, "MaxAdds": 1, "Size": '"narrow"'}},
+        "always": ["Inv_StrictReads"], "properties": ["P_C14_sys", "P_Snapshot", "P_C10_sys"],
+    },
 }
 
 # property -> list of (model, invariants, extra constants)
@@ -66,7 +73,8 @@ PLAN = {
     "C12": [("Derive", ["Inv_C12"], {"Ops": '{"remap_uri", "rewire"}', "MaxBase": 1, "BaseMode": '"all"'})],
     "C10": [("Derive", [], {"Ops": '{"chain", "sub"}', "MaxFollow": 1}),
             ("Derive", [], {"Ops": '{"chain", "sub", "remap_uri", "rewire"}', "MaxFollow": 1, "MaxBase": 1, "BaseMode": '"all"'}),
-            ("Remap", [], {"MaxRecs": 1})],
+            ("Remap", [], {"MaxRecs": 1}),
+            ("System", [], {})],       # writing a file changes no converter; reading one changes none but the new one
     "C11": [("Remap", ["Inv_C11"], {})],
 }
 
@@ -257,6 +265,10 @@ def conc_hist(hist, cmap, variants=True):
             ops.append({"k": "load", "loader": ld, "data": data})
         elif k == "upgrade":
             ops.append({"k": "upgrade", "data": [[conc(a, cmap), conc(b, cmap)] for a, b in op["data"]]})
+        elif k == "write":
+            ops.append({"k": "write", "i": op["i"], "fmt": op["fmt"], "syn": op["syn"], "expand": op["expand"]})
+        elif k == "read":
+            ops.append({"k": "read", "j": op["j"]})
         else:
             raise MachineryError(f"unknown abstract op {k}")
     return ops
@@ -325,8 +337,15 @@ def run_ops(args):
                 w.reuse(op["i"], op.get("recs", []), extra)
         elif k == "probe":
             w.probe([i for i in op["is"] if i <= len(w.convs)], extra)
+        elif k == "write":
+            if op["i"] <= len(w.convs):
+                w.write(op["i"], op["fmt"], op["syn"], op["expand"])
+        elif k == "read":
+            if op["j"] <= len(getattr(w, "files", [])) and w.files[op["j"] - 1]["ok"]:
+                w.read(op["j"], extra)
         else:
             raise KeyError(k)
+    w.cleanup()
     import shutil as _sh
     _sh.rmtree(os.path.join(os.environ.get("VERIF_TMP", "/verif/out"), f"load-{os.getpid()}"), ignore_errors=True)
     return {"events": w.events, "strs": I.strs}
@@ -478,19 +497,25 @@ def repo_test_traces(focus, timeout=600):
         shutil.rmtree(d, ignore_errors=True)
 
 
-def simulate(num, depth, seed, timeout=900, max_convs=5):
+def simulate(num, depth, seed, timeout=900, max_convs=5, system=False, size="wide"):
     """Long random behaviours of the whole converter world from `tlc -simulate` on mc/MC_Sim.tla
-    (all operations on any live converter).  Returns (histories, stats)."""
+    (all operations on any live converter), or, with system=True, on mc/MC_System.tla (the world with the files it
+    writes and reads).  Returns (histories, stats)."""
     d = tlc.scratch("sim")
     try:
         cfg = os.path.join(d, "sim.cfg")
         with open(cfg, "w") as f:
-            f.write("SPECIFICATION MCSpec\nCONSTANTS\n  FoldMap <- Fold\n  DefaultDelim <- MCDefaultDelim\n"
-                    f"  MaxConvs = {max_convs}\n  MaxSteps = {depth - 1}\nINVARIANT Inv_Struct\nPROPERTY P_C10\nCHECK_DEADLOCK FALSE\n")
+            if system:
+                f.write("SPECIFICATION MCSpec\nCONSTANTS\n  FoldMap <- Fold\n  DefaultDelim <- MCDefaultDelim\n"
+                        f"  MaxConvs = {max_convs}\n  MaxSteps = {depth - 1}\n  MaxFiles = 3\n  MaxAdds = 3\n  Size = \"{size}\"\n"
+                        "INVARIANT Inv_StrictReads\nPROPERTY P_C14_sys\nPROPERTY P_Snapshot\nPROPERTY P_C10_sys\nCHECK_DEADLOCK FALSE\n")
+            else:
+                f.write("SPECIFICATION MCSpec\nCONSTANTS\n  FoldMap <- Fold\n  DefaultDelim <- MCDefaultDelim\n"
+                        f"  MaxConvs = {max_convs}\n  MaxSteps = {depth - 1}\nINVARIANT Inv_Struct\nPROPERTY P_C10\nCHECK_DEADLOCK FALSE\n")
         tdir = os.path.join(d, "tr")
         os.makedirs(tdir)
         workers = 8
-        out, wall, rc = tlc.run_tlc("mc/MC_Sim.tla", cfg, workers=workers, timeout=timeout, simulate=f"file={tdir}/tr,num={max(1, num // workers)}",
+        out, wall, rc = tlc.run_tlc("mc/MC_System.tla" if system else "mc/MC_Sim.tla", cfg, workers=workers, timeout=timeout, simulate=f"file={tdir}/tr,num={max(1, num // workers)}",
                                     depth=depth, seed=seed)
         if tlc.violated_invariant(out):
             raise MachineryError("the simulation model violates its own invariant: " + out[-1500:])
@@ -498,7 +523,7 @@ def simulate(num, depth, seed, timeout=900, max_convs=5):
         import re
         m = re.search(r"(\d+) states checked", out)
         hs = [(s["hist"], s.get("last"), s.get("sigs")) for s in states if s.get("hist")]
-        return hs, {"model": "Sim", "instance": "simulate", "behaviours": len(hs), "states_checked": int(m.group(1)) if m else 0,
+        return hs, {"model": "System" if system else "Sim", "instance": "simulate", "behaviours": len(hs), "states_checked": int(m.group(1)) if m else 0,
                     "depth": depth, "wall_s": round(wall, 1)}
     finally:
         shutil.rmtree(d, ignore_errors=True)
